@@ -106,9 +106,14 @@ class C11Monitor(Monitor):
                     if j > 0:
                         inner.add(k)
                     k += 1
+            if len(gens) > len(closes):
+                # one GSC consult closes every generation: a history with more generations than that holds
+                # generations that were not produced when it says (e.g. a block recorded twice)
+                self.violate("more-generations-than-generation-consults/" + cls,
+                             {"deme": d.id, "generations": len(gens), "consults_plus_initial": len(closes)})
             for gi in range(max(1, start), len(gens)):
                 if gi >= len(closes):
-                    break  # cannot map (should not happen: one consult per generation)
+                    break
                 prev = {(gb(i.genome), fb(i.fitness)) for i in gens[gi - 1]}
                 t_prev = closes[gi - 1]
                 t_this = closes[gi]
